@@ -74,6 +74,7 @@ func (m *module) wait(waiter *module) (starlark.StringDict, error) {
 		}
 	}
 
+	verifPoint("module.wait.after-walk", m.label.String())
 	m.m.Lock()
 	defer m.m.Unlock()
 
